@@ -34,7 +34,8 @@ def c05(tier, seed):
             Run("faults", "release", ["prop=C05", "--flavours", "Tok,Tok24"], shards=8),
             Run("faults", "miri", ["prop=C05", "--flavours", "HeapTok", "--maxn", "4"], shards=32, miri_extra="-Zmiri-ignore-leaks",
                 label="faults/miri(HeapTok,N<=4)"),
-            Run("faults", "asan", ["prop=C05", "--flavours", "HeapTok"], shards=8, env={"ASAN_OPTIONS_EXTRA": "detect_leaks=0"}),
+            Run("faults", "asan", ["prop=C05", "--flavours", "HeapTok"], shards=8,
+                env={"ASAN_OPTIONS": "halt_on_error=1:abort_on_error=0:detect_leaks=0:exitcode=98"}, label="faults/asan(leaks waived)"),
         ]
     return runs
 
